@@ -107,11 +107,11 @@ Definition holds (c : case) : bool :=
    which it is proved there that class 0 implies the guards of the theorems; *_cls_reg adds
    recognition of classes 2 and 3, repaired by 16472e5d and 09ff19a1 — findings C17-F2 / C17-F3 being
    closed, the driver reports a case that fails the spec inside them as VIOLATION with that input);
-   Typed.v adds the open class 4 (the integer 0 among the values: do_ava raises OtherError, C17-F4),
-   consulted after class 1 *)
+   Typed.v adds class 4 (the integer 0 / float 0.0 among the values: do_ava raised OtherError, C17-F4,
+   repaired by 33a3a3a1), recognised after class 1 in the same way *)
 Definition cls (c : case) : nat :=
   match c with
-  | CSend a av f _ => send_cls_py (acs_of a) f av
+  | CSend a av f _ => send_cls_reg_py (acs_of a) f av
   | CRecv a allow xml ws _ => recv_cls_reg (acs_of a) (recv_input xml ws)
   | CRound a av f _ _ _ => round_cls_reg_py (acs_of a) f av
   | CLoad _ _ => 0
@@ -119,11 +119,14 @@ Definition cls (c : case) : nat :=
 
 Definition run := run_cases agrees holds cls.
 
-(* (wire attributes the model sends, result of the model NOW, results of the pre-16472e5d (v0) and
+(* (wire attributes the model sends NOW and, for a send, those of the pre-33a3a3a1 model in the second
+    component; result of the model NOW, results of the pre-16472e5d (v0) and
     pre-09ff19a1 (v1) models, converter the model loads, holds, cls) *)
 Definition explain (c : case) :=
   match c with
-  | CSend a av f obs => (from_local_py (acs_of a) av f, RNone, None, None, holds c, cls c)
+  | CSend a av f obs =>
+      (from_local_py (acs_of a) av f,
+       match from_local_py_v0 (acs_of a) av f with SExc e => RExc e | _ => RNone end, None, None, holds c, cls c)
   | CRecv a allow xml ws obs =>
       (SNone, ROk (to_local (acs_of a) allow (recv_input xml ws)),
        Some (to_local_v0 (acs_of a) allow (recv_input xml ws), to_local_v1 (acs_of a) allow (recv_input xml ws)),
